@@ -16,4 +16,13 @@ for pid in OB.ALL_PROPERTY_IDS:
 PY
 # warm the native build of the harness crate (type-check only); the Kani build happens on first check
 (cd kani && RUSTFLAGS="--cfg saito_verif" cargo check --offline --target-dir /verif/.cache/native-target >/dev/null 2>&1 || true)
+# warm the Kani build of saito-core + harness crate on the shared target dir (no verification)
+(cd kani && RUSTFLAGS="--cfg saito_verif" cargo kani --only-codegen --target-dir /verif/.cache/kani-target -Z unstable-options -Z stubbing --harness c10::c10_gt_len97 --exact >/verif/.cache/logs/setup-kani.log 2>&1 || true)
+# warm the MIR dump used by engine M
+python3-vt - <<'PY' || true
+import sys
+sys.path.insert(0, '/verif')
+from mirsym import run
+run.ensure_dump()
+PY
 echo "setup done"
